@@ -109,6 +109,9 @@ class Context:
         if config not in self._progs:
             f = facts.generate(config)
             self._progs[config] = core.Program(f)
+            rn = getattr(self._progs[config], "renamed", None)
+            if rn:
+                self.note("config %s: renamed private items analysed under their baseline names: %s" % (config, ", ".join("%s -> %s" % (k, v) for k, v in sorted(rn.items())[:12])))
             self.configs_used.append({"config": config, "cache": f["meta"].get("cache"),
                                       "bodies": len(f["fns"]), "features": f["meta"].get("features"),
                                       "debug_assertions": f["meta"].get("debug_assertions")})
